@@ -228,6 +228,12 @@ def run_case(case, orc, table, seed):
             v = solve_poisson_robust(grid, rho, itf, atnums, atcoords, split2=bool(case["split2"]), **kw)
             ex = pot(ts, ows, P)
             out.append((kind, rel(v(P), ex), None))
+            if case["split2"]:
+                # "split options": a user-supplied exponent basis listed from tight to diffuse (as basis-set
+                # files do) spans the same functions as an ascending one and must serve equally well
+                basis = np.geomspace(0.05, 5000.0, 20)[::-1].copy()
+                v2 = solve_poisson_robust(grid, rho, itf, atnums, atcoords, split2=True, alphas_basis=basis, **kw)
+                out.append((kind, rel(v2(P), ex), None))
             if kind == "robust_smooth":
                 plain = solve_poisson_bvp(grid, rho, itf, **kw)(P)
                 out.append(("robust_vs_plain", float(np.max(np.abs(v(P) - plain)) / np.max(np.abs(ex))), None))
